@@ -1748,7 +1748,11 @@ def r6_names_and_values_from_one_iteration(ctx, rid):
                 if not (isinstance(seeds[0], ast.Constant) and isinstance(seeds[0].value, (int, float))):
                     problems.append(f"the first seeded value `{ast.unparse(seeds[0])}` is not the initial time constant")
                 sv_src = _state_vec_source(ctx, f, sv_kw)
-                if sv_src is None or sv_src not in outer_ids(seeds[1]):
+                if sv_src is None:
+                    raise AnalysisError(f"{rid}: {f.qual}: the state vector stored under the state-vector key "
+                                        f"`{ast.unparse(sv_kw) if sv_kw is not None else None}` was not found (no add_var(..., value=<vector>) "
+                                        f"defines that key)")
+                if sv_src not in outer_ids(seeds[1]):
                     problems.append(f"the second seeded value `{ast.unparse(seeds[1])}` is not the state vector `{sv_src}` stored under the "
                                     f"state-vector key")
             extra = [k for k in skipped if k not in (repr("t"), sv_key, HIST)]
@@ -1779,19 +1783,31 @@ def r6_names_and_values_from_one_iteration(ctx, rid):
 
 
 def _state_vec_source(ctx, f, sv_kw) -> Optional[str]:
-    """state_var_key, y = self.add_var(label='y', value=<state_vec>, ...)  ->  '<state_vec>'"""
-    if not isinstance(sv_kw, ast.Name):
-        return None
-    for d in ctx.rd(f).defs_reaching(sv_kw):
+    """state_var_key, y = self.add_var(label='y', value=<state_vec>, ...)  ->  '<state_vec>'.
+    The add_var call may sit in a private helper: then it is looked for in f with its helpers spliced in."""
+    def source(g, kw) -> Optional[str]:
+        if not isinstance(kw, ast.Name):
+            return None
+        root = alias_root(ctx, g, kw, wrappers=())
+        d = root.defstmt
+        if d is None and isinstance(root.expr, ast.Name):
+            defs = ctx.rd(g).defs_reaching(root.expr)
+            d = defs[0] if len(defs) == 1 else None
         v = d.value if isinstance(d, ast.Assign) else None
-        if isinstance(v, ast.Name):
-            r = alias_root(ctx, f, v, wrappers=())
-            d, v = (r.defstmt, r.defstmt.value) if isinstance(r.defstmt, ast.Assign) else (d, v)
-        if isinstance(d, ast.Assign) and isinstance(v, ast.Call) and call_name(v) == "add_var":
+        if isinstance(v, ast.Call) and call_name(v) == "add_var":
             val = next((k.value for k in v.keywords if k.arg == "value"), None)
             if isinstance(val, ast.Name):
-                return val.id
-    return None
+                return _plain(val.id)
+        return None
+    r = source(f, sv_kw)
+    if r is None:
+        fv = _view(ctx, f)
+        if fv is not f:
+            for c in walk_shallow(fv.node):
+                if isinstance(c, ast.Call) and call_name(c) == "generate_func_head":
+                    kw = next((k.value for k in c.keywords if k.arg == "state_var"), None)
+                    r = r or source(fv, kw)
+    return r
 
 
 def target_names_of_stmt(st) -> List[str]:
@@ -2011,43 +2027,64 @@ def r9_indexed_assignment_defines_its_first_argument(ctx, rid):
     `var` are then emitted before the edge input is written."""
     import ast as _ast
     f = ctx.repo.get_func("pyrates/backend/computegraph.py", "ComputeGraph._sort_var_updates")
-    # the registration list, by role: inside a loop over the equations (the function's first parameter) one local list receives,
-    # per equation, either the loop's own key (the equation defines that variable) or something else (lhs-indexing operation)
+    # the registration list, by role: one name per equation of the function's first parameter — the equation's own key (it
+    # defines that variable) or something else (lhs-indexing operation) — collected by a loop that appends to one local list
+    # or by a comprehension, the choice possibly made inside a private helper that is handed the key
     first_param = next((p for p in f.params if p != f.self_name), None)
-    by_list: Dict[str, List[tuple]] = {}
-    for L in [n for n in walk_shallow(f.node) if isinstance(n, _ast.For)]:
-        it = strip_wrappers(L.iter, ("list", "tuple", "iter"))
+
+    def over_equations(it) -> bool:
+        it = strip_wrappers(it, ("list", "tuple", "iter"))
         if isinstance(it, _ast.Call) and isinstance(it.func, _ast.Attribute) and it.func.attr in ("keys", "copy") and not it.args:
             it = it.func.value
-        if not (isinstance(it, _ast.Name) and it.id == first_param and isinstance(L.target, _ast.Name)):
+        return isinstance(it, _ast.Name) and it.id == first_param
+
+    def alternatives(e, g, key, depth=0):
+        """[(value expression, function it is written in, name of the equation key there)]"""
+        if isinstance(e, _ast.IfExp) and any(isinstance(x, _ast.Name) and x.id == key for x in (e.body, e.orelse)):
+            return alternatives(e.body, g, key, depth) + alternatives(e.orelse, g, key, depth)
+        if isinstance(e, _ast.Call) and depth < 2 and any(isinstance(x, _ast.Name) and x.id == key for x in e.args):
+            targets, how = ctx.cg.resolve_call(g, e)
+            if len(targets) == 1 and how != "by-name":
+                h = targets[0]
+                bound = _bind_args(h, e)
+                pk = [p_ for p_, x in bound.items() if isinstance(x, _ast.Name) and x.id == key]
+                rets = [r for r in walk_shallow(h.node) if isinstance(r, _ast.Return) and r.value is not None]
+                if len(pk) == 1 and rets:
+                    return [alt for r in rets for alt in alternatives(r.value, h, pk[0], depth + 1)]
+        return [(e, g, key)]
+    groups: Dict[str, List[tuple]] = {}
+    for L in [n for n in walk_shallow(f.node) if isinstance(n, _ast.For)]:
+        if not (over_equations(L.iter) and isinstance(L.target, _ast.Name)):
             continue
         for c in walk_shallow(L):
             if isinstance(c, _ast.Call) and call_name(c) == "append" and isinstance(c.func, _ast.Attribute) \
                     and isinstance(c.func.value, _ast.Name) and len(c.args) == 1 and in_body(L, c):
-                by_list.setdefault(c.func.value.id, []).append((c, L.target.id))
-    cands = {nm: cs for nm, cs in by_list.items()
-             if len(cs) == 2 and sum(1 for c, t in cs if isinstance(c.args[0], _ast.Name) and c.args[0].id == t) == 1}
+                groups.setdefault("list " + c.func.value.id, []).extend((alt, c) for alt in alternatives(c.args[0], f, L.target.id))
+    for comp in [n for n in walk_shallow(f.node) if isinstance(n, (_ast.ListComp, _ast.GeneratorExp))]:
+        if len(comp.generators) == 1 and over_equations(comp.generators[0].iter) and isinstance(comp.generators[0].target, _ast.Name) \
+                and not comp.generators[0].ifs:
+            groups.setdefault(f"comprehension {comp.lineno}:{comp.col_offset}", []).extend(
+                (alt, comp) for alt in alternatives(comp.elt, f, comp.generators[0].target.id))
+    cands = {nm: cs for nm, cs in groups.items()
+             if len(cs) == 2 and sum(1 for (e, _g, k), _c in cs if isinstance(e, _ast.Name) and e.id == k) == 1}
     if len(cands) != 1:
         raise AnalysisError(f"{rid}: expected one list with two registrations (the equation's own key / the variable an lhs-indexing "
                             f"operation writes) in _sort_var_updates, found {len(cands)}")
-    (appends,) = cands.values()
+    (regs,) = cands.values()
     # the registration on the branch where the lhs node is an operation (not a ComputeVar)
-    op_branch = [c for c, t in appends if not (isinstance(c.args[0], _ast.Name) and c.args[0].id == t)]
-    if len(op_branch) != 1:
-        raise AnalysisError(f"{rid}: the registration for lhs-indexing operations was not recognised")
-    c = op_branch[0]
+    (reg_expr, reg_f, _k), c = next(x for x in regs if not (isinstance(x[0][0], _ast.Name) and x[0][0].id == x[0][2]))
 
     def expand(e, depth=0):
         out = [e]
         if depth < 4:
             for n in _ast.walk(e):
                 if isinstance(n, _ast.Name) and isinstance(n.ctx, _ast.Load):
-                    for d in ctx.rd(f).defs_reaching(n):
+                    for d in ctx.rd(reg_f).defs_reaching(n):
                         v = assigned_value(d, n.id)
                         if v is not None:
                             out += expand(v, depth + 1)
         return out
-    exprs = expand(c.args[0])
+    exprs = expand(reg_expr)
     text = " ; ".join(_ast.unparse(x) for x in exprs)
     structural = any(isinstance(n, _ast.Subscript) and isinstance(n.value, _ast.Attribute) and n.value.attr == "args"
                      and isinstance(n.value.value, _ast.Attribute) and n.value.value.attr == "expr"
@@ -2064,7 +2101,7 @@ def r9_indexed_assignment_defines_its_first_argument(ctx, rid):
                                  f"registered instead and readers of the assigned variable are emitted before it is written", facts,
                       label="defined variable of an indexed assignment")
     else:
-        raise AnalysisError(f"{rid}: unrecognised registration `{_ast.unparse(c)}`")
+        raise AnalysisError(f"{rid}: unrecognised registration `{_ast.unparse(reg_expr)}`")
 
 
 RULES = [
@@ -2089,3 +2126,269 @@ try:                                                     # pragma: no cover - de
         RULES.insert(4, ("C01-R5", _r5, _fl5))
 except Exception:
     pass
+
+
+# ================================================================================================
+# R10 an indexed (non-accumulating) edge equation is only emitted for duplicate-free target indices
+# ================================================================================================
+
+UNIQUE_CALLS = {"unique", "set", "frozenset"}
+
+
+def _index_params(g) -> List[str]:
+    """Parameters of an indexing helper that end up as the index of the emitted `index(var, <idx>)` text: the names in the
+    holes after the first one of a returned f-string that starts with `index`."""
+    out: List[str] = []
+    for r in [n for n in walk_shallow(g.node) if isinstance(n, ast.Return) and isinstance(n.value, ast.JoinedStr)]:
+        vals = r.value.values
+        if not (vals and isinstance(vals[0], ast.Constant) and str(vals[0].value).startswith("index")):
+            continue
+        holes = [v.value for v in vals if isinstance(v, ast.FormattedValue)]
+        for h in holes[1:]:
+            for n in ast.walk(h):
+                if isinstance(n, ast.Name) and n.id in g.params and n.id not in out:
+                    out.append(n.id)
+    return out
+
+
+def _dup_test(ctx, f, test: ast.AST):
+    """Parse a test that compares the number of distinct entries of a list with a length.
+    -> ('dup', A, True|False)   test is true exactly when list A has (True) / has no (False) duplicates
+       ('mismatch', A, B)       len(unique(A)) is compared with the length of another list B: says nothing about duplicates
+       None                     not such a test."""
+    pol = True
+    while isinstance(test, ast.UnaryOp) and isinstance(test.op, ast.Not):
+        test, pol = test.operand, not pol
+    if not (isinstance(test, ast.Compare) and len(test.ops) == 1):
+        return None
+
+    def resolve(e, depth=0):
+        if isinstance(e, ast.Name) and depth < 4:
+            defs = ctx.rd(f).defs_reaching(e)
+            v = assigned_value(defs[0], e.id) if len(defs) == 1 and not isinstance(defs[0], ast.arguments) else None
+            if isinstance(v, (ast.Call, ast.Attribute, ast.Name)):
+                return resolve(v, depth + 1)
+        return e
+
+    def length_of(e):
+        """('uniq'|'len', list expression) for len(unique(A)) / unique(A).size / len(A) / A.size"""
+        e = resolve(e)
+        inner = None
+        if isinstance(e, ast.Call) and call_name(e) == "len" and len(e.args) == 1:
+            inner = resolve(e.args[0])
+        elif isinstance(e, ast.Attribute) and e.attr in ("size",):
+            inner = resolve(e.value)
+        if inner is None:
+            return None
+        if isinstance(inner, ast.Call) and call_name(inner) in UNIQUE_CALLS and len(inner.args) >= 1:
+            return "uniq", inner.args[0]
+        return "len", inner
+    l, r = length_of(test.left), length_of(test.comparators[0])
+    if l is None or r is None or {l[0], r[0]} != {"uniq", "len"}:
+        return None
+    op = test.ops[0]
+    uniq, plain = (l, r) if l[0] == "uniq" else (r, l)
+    if isinstance(op, (ast.NotEq,)):
+        dup = True
+    elif isinstance(op, ast.Eq):
+        dup = False
+    elif isinstance(op, (ast.Lt, ast.LtE, ast.Gt, ast.GtE)):
+        # normalise to  len(unique) OP len(list)
+        kind = type(op) if l[0] == "uniq" else {ast.Lt: ast.Gt, ast.Gt: ast.Lt, ast.LtE: ast.GtE, ast.GtE: ast.LtE}[type(op)]
+        if kind is ast.Lt:
+            dup = True
+        elif kind is ast.GtE:
+            dup = False
+        else:
+            return None         # `<=` is always true, `>` never: not a test
+    else:
+        return None
+    a, b = uniq[1], plain[1]
+    if not (isinstance(a, ast.Name) and isinstance(b, ast.Name)):
+        return None
+    if a.id != b.id or ctx.rd(f).defs_reaching(a) != ctx.rd(f).defs_reaching(b):
+        return "mismatch", a.id, b.id
+    return "dup", a.id, dup == pol
+
+
+def _r10_sites(ctx, rid, f, indexers):
+    """Indexed assignment equations emitted in function (or view) f: [dict(pos, node, stmt, idx: [Name], unique: bool)]."""
+    out = []
+    rd, cfg = ctx.rd(f), ctx.cfg(f)
+    for js in [n for n in walk_shallow(f.node) if isinstance(n, ast.JoinedStr)]:
+        v = js.values
+        if not (len(v) >= 2 and isinstance(v[0], ast.FormattedValue) and isinstance(v[0].value, ast.Name)
+                and isinstance(v[1], ast.Constant) and re.match(r"\s*=(?!=)", str(v[1].value))):
+            continue
+        lhs = v[0].value
+        cands: List[ast.Name] = []
+        n_calls = 0
+        for d in rd.defs_reaching(lhs):
+            val = assigned_value(d, lhs.id)
+            if not isinstance(val, ast.Call):
+                continue
+            try:
+                targets, how = ctx.cg.resolve_call(f, val)
+            except Exception:
+                continue
+            for g in targets:
+                if g in indexers and how != "by-name":
+                    n_calls += 1
+                    bound = _bind_args(g, val)
+                    for p_ in indexers[g]:
+                        a = bound.get(p_)
+                        if isinstance(a, ast.Name):
+                            cands.append(a)
+        if not n_calls or not cands:
+            continue
+        st = stmt_of(cfg, js)
+
+        def is_unique(a: ast.Name) -> Optional[bool]:
+            defs = rd.defs_reaching(a)
+            vals = [assigned_value(d, a.id) for d in defs if not isinstance(d, ast.arguments)]
+            if vals and len(vals) == len(defs) and all(isinstance(x, ast.Call) and call_name(x) in UNIQUE_CALLS | {"arange", "range"}
+                                                        for x in vals):
+                return True
+            return False
+        # string-valued candidates (the *name* under which the index constant is stored) are not lists
+        lists = [a for a in cands if not all(isinstance(assigned_value(d, a.id), (ast.Constant, ast.JoinedStr))
+                                             for d in rd.defs_reaching(a) if not isinstance(d, ast.arguments))
+                 or all(isinstance(d, ast.arguments) for d in rd.defs_reaching(a))]
+        if not lists:
+            continue
+        out.append(dict(pos=(js.lineno, js.col_offset), node=js, stmt=st, idx=lists, unique=all(is_unique(a) for a in lists)))
+    return out
+
+
+def _r10_guard(ctx, rid, f, site):
+    """('ok', reason) | ('open', reason) — is the equation only reachable when one of its index lists is known duplicate-free?"""
+    rd, cfg = ctx.rd(f), ctx.cfg(f)
+    st = site["stmt"]
+    names = {a.id: a for a in site["idx"]}
+
+    def same_value(nm, at) -> bool:
+        return rd.defs_reaching_at(at, nm) == rd.defs_reaching_at(st, nm)
+
+    def distinct_when(node, target):
+        """An `if` that dominates `target` and, on the outcome leading there, proves one of the index lists duplicate-free."""
+        for d in cfg.dominators(target):
+            if not isinstance(d, ast.If) or d is target:
+                continue
+            t = _dup_test(ctx, f, d.test)
+            if t is None or t[0] != "dup" or t[1] not in names or not same_value(t[1], d):
+                continue
+            oc = _outcome_leading_to(cfg, d, target)
+            if oc is not None and (oc != t[2]):
+                return d
+        return None
+    g = distinct_when(None, st)
+    if g is not None:
+        return "ok", f"dominated by `{_plain(norm(g))}` on the branch without duplicates"
+    reasons = []
+    for d in cfg.dominators(st):
+        if not isinstance(d, ast.If) or d is st:
+            continue
+        t, want = d.test, _outcome_leading_to(cfg, d, st)
+        if want is None:
+            continue
+        while isinstance(t, ast.UnaryOp) and isinstance(t.op, ast.Not):
+            t, want = t.operand, not want
+        if not isinstance(t, ast.Name):
+            continue
+        defs = rd.defs_reaching_at(d, t.id)
+        if not defs:
+            continue
+        open_defs = []
+        for fd in defs:
+            v = assigned_value(fd, t.id) if not isinstance(fd, ast.arguments) else None
+            if isinstance(v, ast.Constant) and bool(v.value) != want:
+                continue                                    # this definition cannot lead to the equation
+            if not isinstance(fd, ast.arguments) and distinct_when(None, fd) is not None:
+                continue                                    # assigned only where the list is duplicate-free
+            if v is not None:
+                parts = v.values if isinstance(v, ast.BoolOp) and isinstance(v.op, ast.Or if not want else ast.And) else [v]
+                hit = False
+                for part in parts:
+                    pt = _dup_test(ctx, f, part)
+                    # flag false => no operand of `or` is true => no duplicates; flag true => every operand of `and` is true
+                    if pt is not None and pt[0] == "dup" and pt[1] in names and same_value(pt[1], fd) and pt[2] == (not want):
+                        hit = True
+                if hit:
+                    continue
+            open_defs.append(fd)
+        if not open_defs:
+            return "ok", f"reached only through `{_plain(norm(d))}`, and `{t.id}` is {'false' if not want else 'true'} only when the index list is duplicate-free"
+        reasons.append(f"`{t.id}` may be {'false' if not want else 'true'} after `{_plain(norm(open_defs[0]))}` although nothing there says that "
+                       f"`{'` / `'.join(sorted(names))}` is free of duplicates")
+    # anything that looks like a distinctness test but was not understood?
+    for d in cfg.dominators(st):
+        if isinstance(d, ast.If) and d is not st:
+            t = _dup_test(ctx, f, d.test)
+            if t is not None and t[0] == "mismatch" and (t[1] in names or t[2] in names):
+                reasons.append(f"`{_plain(norm(d))}` compares the distinct entries of `{t[1]}` with the length of `{t[2]}`, which says nothing "
+                               f"about duplicates in `{t[2]}`")
+            elif t is None and any(isinstance(c, ast.Call) and call_name(c) in UNIQUE_CALLS and load_ids(c) & set(names)
+                                   for c in ast.walk(d.test)):
+                raise AnalysisError(f"{rid}: {f.qual}: `{_plain(norm(d))}` looks like a duplicate test of the index list in an unrecognised form")
+    return "open", "; ".join(reasons) if reasons else "no test of the index list for duplicates lies on the way to it"
+
+
+def r10_indexed_edge_assignment_needs_distinct_targets(ctx, rid):
+    """An edge equation of the form `index(u, IDX) = …` is an assignment through an index list: when IDX holds an element
+    twice only the last contribution survives, so the input is no longer the sum of its connections.  Necessary: wherever
+    pyrates/ir/circuit.py emits such an equation with a per-edge index list, the list is duplicate-free by construction
+    (np.unique / set / range) or the equation is reachable only where a test `len(unique(IDX)) == len(IDX)` of that very list
+    holds — directly, or through a flag that can only have the required value where that test holds."""
+    funcs = ctx.repo.all_functions([IR])
+    indexers = {g: _index_params(g) for g in funcs}
+    indexers = {g: ps for g, ps in indexers.items() if ps}
+    ctx.require(indexers, f"{rid}: no helper that builds `index(var, idx)` text found in {IR}")
+    seen: Dict[tuple, list] = {}
+    for f0 in funcs:
+        for fv in ([f0] if _view(ctx, f0) is f0 else [f0, _view(ctx, f0)]):
+            for site in _r10_sites(ctx, rid, fv, indexers):
+                own = f0.node.lineno <= site["pos"][0] <= (f0.node.end_lineno or f0.node.lineno)
+                if fv is not f0 and own:
+                    # the view of the owner replaces its plain form (helpers that compute the guard are spliced in)
+                    seen[site["pos"]] = [x for x in seen.get(site["pos"], []) if not (x[0] is f0 and x[3])]
+                seen.setdefault(site["pos"], []).append((f0, fv, site, own))
+    n = 0
+    for pos, entries in sorted(seen.items()):
+        owner = next((e for e in entries if e[3]), None)
+        judged = []
+        for f0, fv, site, own in entries:
+            if site["unique"]:
+                judged.append((f0, fv, site, own, "ok", "indexed through a list that is built by np.unique / set / range"))
+            else:
+                v, why = _r10_guard(ctx, rid, fv, site)
+                judged.append((f0, fv, site, own, v, why))
+        rep_f, rep_site = (owner[0], owner[2]) if owner is not None else (entries[0][0], entries[0][2])
+        label = "indexed assignment `" + _plain(norm(rep_site["node"])) + "`"
+        facts = {"equation": _plain(norm(rep_site["node"])), "index_lists": sorted({a.id for a in rep_site["idx"]}),
+                 "judged_in": sorted({e[0].qualname for e in entries})}
+        own_j = next((j for j in judged if j[3]), None)
+        callers = [j for j in judged if not j[3]]
+        n += 1
+        if own_j is not None and own_j[4] == "ok":
+            ctx.ok(rid, rep_f, rep_site["stmt"], f"the indexed edge equation is {own_j[5]}", facts, label=label)
+            continue
+        idx_from_outside = own_j is not None and all(isinstance(d, ast.arguments) for a in own_j[2]["idx"]
+                                                     for d in ctx.rd(own_j[1]).defs_reaching(a))
+        sites = ({c for c, _call in ctx.cg.call_sites_of(own_j[0])} - {own_j[0]}) if own_j is not None else set()
+        bad = [j for j in callers if j[4] != "ok"]
+        if callers and not bad and sites <= {j[0] for j in callers}:
+            ctx.ok(rid, rep_f, rep_site["stmt"], f"the indexed edge equation is {callers[0][5]} (judged in "
+                                                 f"{', '.join(sorted(j[0].qualname for j in callers))})", facts, label=label)
+            continue
+        if idx_from_outside and not bad and not sites <= {j[0] for j in callers}:
+            raise AnalysisError(f"{rid}: {rep_f.qual}: the index list of `{facts['equation']}` is a parameter and not every caller could be "
+                                f"analysed with this helper spliced in (unrecognised form)")
+        why = (bad[0] if bad else own_j)[5]
+        ctx.violation(rid, rep_f, rep_site["stmt"],
+                      f"`{facts['equation']}` assigns through the index list `{'` / `'.join(facts['index_lists'])}`; with a repeated "
+                      f"index only the last edge's contribution is kept (an indexed assignment does not accumulate), and {why}: "
+                      f"several connections onto one target element are silently reduced to one", facts, label=label)
+    ctx.require(n >= 1, f"{rid}: no indexed edge equation (`index(u, idx) = …`) found in {IR}")
+
+
+RULES.append(("C01-R10", r10_indexed_edge_assignment_needs_distinct_targets, 1))
